@@ -289,8 +289,8 @@ def random_field(ctx, tmp):
         labels = [gen.pick(rng, ["s", "rho", "m_s", "T1"])]
     unit = gen.pick(rng, ig.UNITS)
     valid = gen.rand_valid(rng, nlist)
-    f = df.Field(mesh, nvdim=nvdim, value=arr, vdims=labels, unit=unit, valid=valid.copy(),
-                 dtype=arr.dtype)
+    f = gen.via_history(None, df.Field(mesh, nvdim=nvdim, value=arr, vdims=labels, unit=unit, valid=valid.copy(),
+                 dtype=arr.dtype))
     typing = ("int" if spec.int_corners else "float") + "_region_" + (
         "none" if not boxes else "float_sub")
     exp = {
